@@ -147,3 +147,40 @@ Definition initial_common_blocks (src : repo) (commons : list N) : list N :=
     but that a transmitted table needs *)
 Definition needed_common_block (src : repo) (commons : list N) (objs : list obj) (b : N) : Prop :=
   In b (initial_common_blocks src commons) /\ exists t tc, In (OTable t tc) objs /\ In b (tbl_blocks tc).
+
+(** * Write-order facts the model relies on (checked against the regenerated skeletons
+      of ObjectReceiver.saveBlock / saveTable / saveCommit by gen/Tie_C07.v) *)
+From Coq Require Import String.
+
+Fixpoint skel_index (s : string) (l : list string) : option nat :=
+  match l with
+  | [] => None
+  | x :: l' => if String.eqb x s then Some O else option_map S (skel_index s l')
+  end.
+(* both occur, first occurrence of a strictly before first occurrence of b *)
+Definition skel_before (a b : string) (l : list string) : bool :=
+  match skel_index a l, skel_index b l with
+  | Some i, Some j => Nat.ltb i j
+  | _, _ => false
+  end.
+Definition skel_last (a : string) (l : list string) : bool :=
+  match rev l with x :: _ => String.eqb x a | [] => false end.
+
+(* block:  validation before the only write;
+   table:  parse, IndexTable (block indices + table index), ProfileTable, and the table object last;
+   commit: parse, parent existence check, and the commit object last *)
+Definition recv_skel_ok (blk tbl com : list string) : bool :=
+  skel_before "objects.ValidateBlockBytes" "objects.SaveCompressedBlock" blk
+  && skel_last "objects.SaveCompressedBlock" blk
+  && skel_before "objects.ReadTableFrom" "ingest.IndexTable" tbl
+  && skel_before "ingest.IndexTable" "ingest.ProfileTable" tbl
+  && skel_before "ingest.ProfileTable" "objects.SaveTable" tbl
+  && skel_last "objects.SaveTable" tbl
+  && skel_before "objects.ReadCommitFrom" "objects.CommitExist" com
+  && skel_before "objects.CommitExist" "objects.SaveCommit" com
+  && skel_last "objects.SaveCommit" com.
+
+(* IndexTable: block indices are written before the table index *)
+Definition index_skel_ok (idx : list string) : bool :=
+  skel_before "objects.SaveBlockIndex" "objects.SaveTableIndex" idx
+  && skel_last "objects.SaveTableIndex" idx.
